@@ -230,6 +230,8 @@ func runC20(c *report.Ctx) {
 
 	// ---- (4) suspend / resume typestate ----------------------------------------------------------------------------
 	ruleSuspendResume(c)
+	ruleQueueHeadroom(c)
+	ruleCloseDBAlwaysDone(c)
 }
 
 // ruleSuspendResume is shared with C07.
